@@ -1023,25 +1023,86 @@ def check(ck):
                 os_ = [origin(hfa, r.value, hfa.nodes(r)[0]) for r in hfa.returns() if hfa.nodes(r) and r.value is not None]
                 if os_ and all(same_def(os_[0], o) for o in os_):
                     bfa, bek = hfa, os_[0]
-    ek_muts = mutations(bfa, bek) if bek is not None else []
     CE_Q = FRA + "._compute_effective_kwargs"
     where_ce = bfa.where(bek.stmt) if bek is not None and bek.stmt is not None else bfa.where()
     ck.ob(R3, CE_Q + "::returns-result", bek is not None, "the bound mapping is returned" if bek is not None else "the bound mapping is not what is returned", where_ce)
     self_ref = ast.parse("self.fn_reference", mode="eval").body
     REF = ftext(bfa, self_ref, bfa.cfg.exit) if bek is None else ftext(bfa, self_ref, bek.node)
-    ok1 = False
-    if bek is not None:
-        s0 = is_copy_of(bek.value)
-        ok1 = s0 is not None and ftext(bfa, s0, bek.node) == REF + ".partial_kwargs"
+
+    def creation(v):
+        """how the expression that creates a mapping puts it together: (what it copies or None, [mappings merged
+        in after that, in order], something else goes in as well); None if `v` does not create a mapping"""
+        v = strip_cast(v)
+        src = is_copy_of(v)
+        if src is not None:
+            return (src, [], False)
+        if isinstance(v, ast.Dict):
+            base, merges, odd_ = None, [], False
+            for i, (k, x) in enumerate(zip(v.keys, v.values)):
+                if k is None and i == 0:
+                    base = x
+                elif k is None:
+                    merges.append(x)
+                else:
+                    odd_ = True
+            return (base, merges, odd_)
+        if isinstance(v, ast.Call) and isinstance(v.func, ast.Name) and v.func.id == "dict" and len(v.args) <= 1:
+            return (v.args[0] if v.args else None, [k.value for k in v.keywords if k.arg is None], any(k.arg is not None for k in v.keywords))
+        if isinstance(v, ast.BinOp) and isinstance(v.op, ast.BitOr):
+            l = creation(v.left) if isinstance(strip_cast(v.left), ast.BinOp) else None
+            return (l[0], l[1] + [v.right], l[2]) if l is not None else (v.left, [v.right], False)
+        return None
+
+    # the mapping may be built in stages: a mapping that is filled, then `{**that, **more}` ...; the stages, first one first
+    chain = [bek] if bek is not None else []
+    while chain and len(chain) < 5:
+        cr = creation(chain[0].value)
+        prev = origin(bfa, cr[0], chain[0].node) if cr is not None and cr[0] is not None and _ref_name(strip_cast(cr[0])) is not None else None
+        if prev is None or creation(prev.value) is None or any(same_def(prev, d_) for d_ in chain):
+            break
+        chain.insert(0, prev)
+    root_cr = creation(chain[0].value) if chain else None
+    ok1 = root_cr is not None and root_cr[0] is not None and ftext(bfa, root_cr[0], chain[0].node) == REF + ".partial_kwargs"
 
     def is_ek(e, at):
-        return bek is not None and same_def(origin(bfa, e, at), bek)
+        o_ = origin(bfa, e, at)
+        return any(same_def(o_, d_) for d_ in chain)
 
-    pos_bind = []   # (names expr, values expr, node, stmt)
-    kw_merge = []   # (source expr, node, stmt)
+    pos_bind = []   # (names expr, values expr, node, key)
+    kw_merge = []   # (source expr, node, key)
     odd = []
-    for (s, ids) in ek_muts:
-        at = ids[0]
+    contribs = []   # (node, key) of everything that goes into the mapping, and `order` of those that share a node
+    order = {}
+
+    def later(x, y):
+        """contribution y = (node, key) takes effect after contribution x"""
+        if x[0] == y[0]:
+            return order.get(id(y[1]), 0) > order.get(id(x[1]), 0)
+        return y[0] in bfa.cfg.reach([x[0]], include_start=False)
+
+    def classify_merge(a0, at, key, shown):
+        """a mapping poured into the result: names zipped with values (positional binding) or keyword arguments"""
+        a0 = strip_cast(a0)
+        if isinstance(a0, ast.Call) and A.call_attr(a0) == "dict" and len(a0.args) == 1 and not a0.keywords:
+            a0 = strip_cast(a0.args[0])
+        comp_ = a0 if isinstance(a0, ast.DictComp) and len(a0.generators) == 1 and not a0.generators[0].ifs else None
+        g_ = comp_.generators[0] if comp_ is not None else None
+        if g_ is not None and isinstance(g_.target, ast.Tuple) and len(g_.target.elts) == 2 and isinstance(strip_cast(g_.iter), ast.Call) \
+                and [A.norm(x) for x in g_.target.elts] == [A.norm(comp_.key), A.norm(comp_.value)] and all(isinstance(x, ast.Name) for x in g_.target.elts):
+            # {name: value for name, value in zip(names, values)} / {k: v for k, v in mapping.items()}
+            it_ = strip_cast(g_.iter)
+            if A.call_attr(it_) == "zip" and len(it_.args) == 2:
+                pos_bind.append((it_.args[0], it_.args[1], at, key))
+            elif A.call_attr(it_) == "items" and not it_.args and A.call_recv(it_) is not None:
+                kw_merge.append((A.call_recv(it_), at, key))
+            else:
+                odd.append((shown, ""))
+        elif isinstance(a0, ast.Call) and A.call_attr(a0) == "zip" and len(a0.args) == 2:
+            pos_bind.append((a0.args[0], a0.args[1], at, key))
+        else:
+            kw_merge.append((a0, at, key))
+
+    def classify_stmt(s, at):
         if isinstance(s, ast.Assign) and len(s.targets) == 1 and isinstance(s.targets[0], ast.Subscript):
             K, V = s.targets[0].slice, s.value
             loop = bfa.enclosing(s, (ast.For, ast.While))
@@ -1070,40 +1131,39 @@ def check(ck):
                 odd.append((A.norm(s.targets[0]), A.norm(V)))
         elif isinstance(s, ast.AugAssign) and isinstance(s.op, ast.BitOr) and not isinstance(s.target, ast.Subscript):
             # result |= mapping
-            kw_merge.append((strip_cast(s.value), at, s))
+            classify_merge(s.value, at, s, A.short(s, 60))
         elif isinstance(s, ast.Expr) and A.call_attr(s.value) == "update":
             c = s.value
-            a0 = strip_cast(c.args[0]) if len(c.args) == 1 and not c.keywords else None
-            if a0 is not None and isinstance(a0, ast.Call) and A.call_attr(a0) == "dict" and len(a0.args) == 1 and not a0.keywords:
-                a0 = a0.args[0]
-            comp_ = a0 if isinstance(a0, ast.DictComp) and len(a0.generators) == 1 and not a0.generators[0].ifs else None
-            g_ = comp_.generators[0] if comp_ is not None else None
-            if g_ is not None and isinstance(g_.target, ast.Tuple) and len(g_.target.elts) == 2 and isinstance(strip_cast(g_.iter), ast.Call) \
-                    and [A.norm(x) for x in g_.target.elts] == [A.norm(comp_.key), A.norm(comp_.value)] and all(isinstance(x, ast.Name) for x in g_.target.elts):
-                # {name: value for name, value in zip(names, values)} / {k: v for k, v in mapping.items()}
-                it_ = strip_cast(g_.iter)
-                if A.call_attr(it_) == "zip" and len(it_.args) == 2:
-                    pos_bind.append((it_.args[0], it_.args[1], at, s))
-                elif A.call_attr(it_) == "items" and not it_.args and A.call_recv(it_) is not None:
-                    kw_merge.append((A.call_recv(it_), at, s))
-                else:
-                    odd.append((A.norm(c), ""))
-            elif a0 is not None and isinstance(a0, ast.Call) and A.call_attr(a0) == "zip" and len(a0.args) == 2:
-                pos_bind.append((a0.args[0], a0.args[1], at, s))
-            elif a0 is not None:
-                kw_merge.append((a0, at, s))
+            if len(c.args) == 1 and not c.keywords:
+                classify_merge(c.args[0], at, s, A.norm(c))
             elif not c.args and len(c.keywords) == 1 and c.keywords[0].arg is None:
                 kw_merge.append((c.keywords[0].value, at, s))
             else:
                 odd.append((A.norm(c), ""))
         else:
             odd.append((A.short(s, 60), ""))
-    if not ok1 and bek is not None and A.norm(strip_cast(bek.value)) in ("{}", "dict()"):
+
+    for ci, d_ in enumerate(chain):
+        cr = creation(d_.value)
+        if cr is not None:
+            if cr[2]:
+                odd.append((A.short(d_.value, 60), ""))
+            for li, x in enumerate(cr[1]):
+                order[id(x)] = li + 1
+                contribs.append((d_.node, x))
+                classify_merge(x, d_.node, x, A.short(x, 60))
+        nxt = chain[ci + 1].node if ci + 1 < len(chain) else None
+        for (s_, ids) in mutations(bfa, d_):
+            if nxt is not None and not any(nxt in bfa.cfg.reach([i]) for i in ids):
+                continue    # changes of an earlier stage after the next one was made from it do not reach the result
+            contribs.append((ids[0], s_))
+            classify_stmt(s_, ids[0])
+    if not ok1 and root_cr is not None and root_cr[0] is None:
         # created empty and filled from the partial kwargs before anything else goes in
         for m0 in kw_merge:
-            others = [ids for (s_, ids) in ek_muts if s_ is not m0[2]]
-            if ftext(bfa, m0[0], m0[1]) == REF + ".partial_kwargs" and all(bfa.cfg.must_pass([m0[1]], i) for ids in others for i in ids) \
-                    and not any(m0[1] in bfa.cfg.reach(ids, include_start=False) for ids in others):
+            others = [c_ for c_ in contribs if c_[1] is not m0[2]]
+            if ftext(bfa, m0[0], m0[1]) == REF + ".partial_kwargs" and all(later((m0[1], m0[2]), c_) and not later(c_, (m0[1], m0[2])) for c_ in others) \
+                    and all(c_[0] == m0[1] or bfa.cfg.must_pass([m0[1]], c_[0]) for c_ in others):
                 ok1 = True
                 kw_merge = [m_ for m_ in kw_merge if m_ is not m0]
                 break
@@ -1194,13 +1254,14 @@ def check(ck):
                 cat = bfa.nodes(st)[0]
         # taken after the partial arguments are bound
         ok3 = ok3 and not any(pn in bfa.cfg.reach([c_], include_start=False) for c_ in [cat] + snap_nodes for pn in part_nodes if pn != c_)
+        # (a stage made by one expression takes the names before it binds anything: `{**bound, **dict(zip(free, args))}`)
     ck.ob(R3, CE_Q + "::remaining-names", ok3, "positional args fill the parameters not yet bound, in order" if ok3 else
           "remaining parameter names are not [name for name in parameter_names if name not in result]", where_ce)
     ok4 = len(kw_merge) == 1 and ftext(bfa, kw_merge[0][0], kw_merge[0][1]) == ftext(bfa, self_kwargs, kw_merge[0][1])
     if ok4:
         # kwargs are applied last: no positional binding after the merge
-        after = bfa.cfg.reach(bfa.nodes(kw_merge[0][2]), include_start=False)
-        ok4 = not any(at_ in after for (N_, S_, at_, s_) in pos_bind) and not odd
+        kw_ = (kw_merge[0][1], kw_merge[0][2])
+        ok4 = not any(later(kw_, (at_, s_)) for (N_, S_, at_, s_) in pos_bind) and not odd
     ck.ob(R3, CE_Q + "::kwargs-last", ok4, "keyword arguments are applied last" if ok4 else
           "keyword arguments are not merged last with result.update(self.kwargs)", where_ce)
     fr = FA(ck, "reference.FunctionReference.__init__")
